@@ -172,6 +172,12 @@ func checkCmd(args []string) int {
 		jobs = append(jobs, solveJob{r, mine})
 		all = append(all, mine...)
 	}
+	// spec-level lemmas checked by an independent prover (Lean 4, core only)
+	for _, lm := range lemmaFiles[prop] {
+		o := runLeanLemma(lm)
+		o.Props = []string{prop}
+		all = append(all, o)
+	}
 	smtDir, _ := os.MkdirTemp("", "gvc-"+prop+"-")
 	if !*keep {
 		defer os.RemoveAll(smtDir)
@@ -469,4 +475,53 @@ func runCmd(dir string, timeout time.Duration, env []string, name string, args .
 		return string(out), fmt.Errorf("timeout")
 	}
 	return string(out), err
+}
+
+
+type lemmaFile struct {
+	ID   string
+	File string
+	What string
+}
+
+var lemmaFiles = map[string][]lemmaFile{
+	"C14": {
+		{"lemma:dpkg-prerelease-sorts-first", "/verif/lemmas/Dpkg.lean", "dpkg verrevcmp: V~pre<tail> < V<tail> for hyphen-free V and tail starting with + or - (or empty)"},
+		{"lemma:rpm-prerelease-sorts-first", "/verif/lemmas/Rpm.lean", "rpmvercmp: P~x < P<y> when y is empty or starts with a separator not followed by ~"},
+	},
+}
+
+// runLeanLemma checks a Lean file: it must elaborate without error or sorry and
+// its theorems may depend only on propext and Quot.sound.
+func runLeanLemma(lm lemmaFile) *Obligation {
+	o := &Obligation{ID: lm.ID, Kind: "lemma", Pos: lm.File, Goal: True, PC: True}
+	t0 := time.Now()
+	out, err := runCmd("/verif/lemmas", 240*time.Second, nil, "lean", lm.File)
+	o.Time = time.Since(t0).Seconds()
+	o.Solver = "lean4"
+	o.SMTLen = len(out)
+	ok := err == nil && !strings.Contains(out, "sorry") && !strings.Contains(out, "error")
+	n := 0
+	for _, l := range strings.Split(out, "\n") {
+		if i := strings.Index(l, "depends on axioms:"); i >= 0 {
+			n++
+			ax := strings.Trim(strings.TrimSpace(l[i+len("depends on axioms:"):]), "[]")
+			for _, a := range strings.Split(ax, ",") {
+				a = strings.TrimSpace(a)
+				if a != "propext" && a != "Quot.sound" && a != "" {
+					ok = false
+				}
+			}
+		}
+	}
+	if n == 0 {
+		ok = false
+	}
+	if ok {
+		o.Status = "unsat"
+	} else {
+		o.Status = "error"
+		o.Model = out
+	}
+	return o
 }
